@@ -193,7 +193,7 @@ pub fn behaviour() -> Behaviour {
         cfg,
         adjust: no_adjust,
         render,
-        quick: 1500,
+        quick: 4000,
         thorough: 20000,
         batch: 25,
         assumptions: &["the statement's std-equivalence clause is limited to ordinary identifiers, so raw identifiers are left to C01"],
